@@ -216,6 +216,7 @@ func (d *decompressor) nextBlockAt(off int64, rs io.ReadSeeker) *decompressor {
 
 	d.lazyBlock()
 
+	verifAtD("d.start", d, off)
 	d.acquireHead()
 	defer d.releaseHead()
 
@@ -233,6 +234,7 @@ func (d *decompressor) nextBlockAt(off int64, rs io.ReadSeeker) *decompressor {
 		}
 		d.err = d.cr.seek(rs, off)
 		if d.err != nil {
+			verifAtD("d.fail", d, off)
 			d.wg.Done()
 			return d
 		}
@@ -247,6 +249,7 @@ func (d *decompressor) nextBlockAt(off int64, rs io.ReadSeeker) *decompressor {
 		base := d.blk.Base()
 		d.blk.setOwner(d.owner)
 		d.blk.setBase(base)
+		verifAtD("d.fail", d, off)
 		d.wg.Done()
 		return d
 	}
@@ -254,8 +257,10 @@ func (d *decompressor) nextBlockAt(off int64, rs io.ReadSeeker) *decompressor {
 	d.gz.Header = gzip.Header{} // Prevent retention of header field in next use.
 
 	// Decompress data into the decompressor's Block.
+	verifAtD("d.read", d, off)
 	go func() {
 		d.err = d.blk.readFrom(&d.gz)
+		verifAtD("i.done", d, 0)
 		d.wg.Done()
 	}()
 
@@ -415,9 +420,12 @@ func NewReader(r io.Reader, rd int) (*Reader, error) {
 				bg.mu.Lock()
 				bg.cache = nil
 				bg.mu.Unlock()
+				verifAt("a.exit", 0)
 				close(bg.done)
 			}()
+			verifAt("a.wait", 0)
 			for dec := range bg.waiting {
+				verifAtD("a.take", dec, next)
 				var open bool
 				if next < 0 {
 					next, open = <-bg.control
@@ -433,6 +441,7 @@ func NewReader(r io.Reader, rd int) (*Reader, error) {
 					default:
 					}
 				}
+				verifAtD("a.ctl", dec, next)
 				// Read ahead of what the cache already holds. Only the
 				// read-ahead may skip: a block that is asked for must be
 				// loaded even if the cache claims to hold it, since the
@@ -446,7 +455,9 @@ func NewReader(r io.Reader, rd int) (*Reader, error) {
 				}
 				dec.nextBlockAt(next, nil)
 				next = dec.blk.NextBase()
+				verifAtD("a.send", dec, next)
 				bg.working <- dec
+				verifAt("a.wait", 0)
 			}
 		}()
 	}
@@ -477,6 +488,7 @@ func (bg *Reader) Seek(off Offset) error {
 			case <-bg.control:
 			default:
 			}
+			verifAt("s.hitctl", bg.current.NextBase())
 			bg.control <- bg.current.NextBase()
 		}
 		if !ok {
@@ -503,9 +515,12 @@ func (bg *Reader) loadBlock(base int64, rs io.ReadSeeker) error {
 	if bg.dec != nil {
 		dec = bg.dec
 	} else {
+		verifAt("l.wait", 0)
 		select {
 		case dec = <-bg.waiting:
+			verifAtD("l.idle", dec, 0)
 		case dec = <-bg.working:
+			verifAtD("l.busy", dec, 0)
 			blk, err := dec.wait()
 			if err == nil {
 				if blk.Base() == base {
@@ -520,6 +535,7 @@ func (bg *Reader) loadBlock(base int64, rs io.ReadSeeker) error {
 					case <-bg.control:
 					default:
 					}
+					verifAtD("l.found", dec, bg.current.NextBase())
 					bg.control <- bg.current.NextBase()
 					bg.waiting <- dec
 					dec = nil
@@ -543,6 +559,7 @@ func (bg *Reader) loadBlock(base int64, rs io.ReadSeeker) error {
 			case <-bg.control:
 			default:
 			}
+			verifAtD("l.back", dec, bg.current.NextBase())
 			bg.control <- bg.current.NextBase()
 			bg.waiting <- dec
 		}
@@ -566,6 +583,7 @@ func (bg *Reader) BlockLen() int { return bg.current.len() }
 // Close closes the reader and releases resources.
 func (bg *Reader) Close() error {
 	if bg.control != nil {
+		verifAt("x.close", 0)
 		close(bg.control)
 		close(bg.waiting)
 		<-bg.done
@@ -675,8 +693,11 @@ func (bg *Reader) nextBlock() error {
 	} else {
 		var ok bool
 		for i := 0; i < cap(bg.working); i++ {
+			verifAt("n.wait", 0)
 			dec := <-bg.working
+			verifAtD("n.recv", dec, 0)
 			bg.current, err = dec.wait()
+			verifAtD("n.back", dec, bg.current.Base())
 			bg.waiting <- dec
 			if bg.current.Base() == base {
 				ok = true
